@@ -750,6 +750,28 @@ def run_server(ctx, reps):
                              "iv_hex": iv.hex()}])[0]
                 if back.get("status") != "ok" or bytes.fromhex(back["data"]["c"]) != pt:
                     ctx.report("c06:server-decrypt-not-inverse:%d" % mode, "Decrypt(Encrypt(m)) != m through the server", {"kind": "server"})
+            # ... and with the OPTIONAL fields of the Cryptographic Parameters nobody normally sends (counter and field
+            # lengths, Initial Counter Value, IV length, key role, Random IV): a Decrypt that states the same parameters
+            # and IV as the Encrypt returns the plaintext (or the Encrypt is refused)
+            for mode, padded in ((6, False), (1, True), (5, False), (4, False), (2, True)):
+                for opt in ({"initial_counter_value": r.choice([1, 7, 255, 2 ** 31 - 1])}, {"counter_length": r.choice([8, 32, 64])},
+                            {"fixed_field_length": 32, "invocation_field_length": 64}, {"iv_length": 16},
+                            {"key_role": 1}, {"random_iv": r.choice([True, False])},
+                            {"initial_counter_value": 1, "counter_length": 32, "iv_length": 16}):
+                    pt, iv = rb(r.choice([1, 16, 33, 64])), rb(16)
+                    cp = dict({"mode": mode, "padding": 3 if padded else None, "alg": 3}, **opt)
+                    ivh = None if mode == 2 else iv.hex()
+                    res = req([{"op": "encrypt", "bid": None, "uid": base, "params": True, "cp": cp, "data_hex": pt.hex(), "iv_hex": ivh}])[0]
+                    count += 1
+                    if res.get("status") != "ok":
+                        continue
+                    ct = bytes.fromhex(res["data"]["c"])
+                    back = req([{"op": "decrypt", "bid": None, "uid": base, "params": True, "cp": cp, "data_hex": ct.hex(), "iv_hex": ivh}])[0]
+                    if back.get("status") != "ok" or bytes.fromhex(back["data"]["c"]) != pt:
+                        ctx.report("c06:server-decrypt-not-inverse:%d:%s" % (mode, "+".join(sorted(opt))),
+                                   "Encrypt then Decrypt through the server with the same key, IV and Cryptographic Parameters %s does "
+                                   "not return the plaintext (%s)" % (json.dumps(cp), back.get("msg") or "other bytes"),
+                                   {"kind": "server", "cp": cp, "pt": pt.hex(), "iv": ivh})
             # a WRAPPED Get and uses of the same key in ONE batch (and after it): the wrapped key is RFC 3394 of the stored
             # key, and every use computes with the STORED key - not with what an earlier item of the batch made of it
             kw = rb(16)
